@@ -106,6 +106,9 @@ func C19(r *core.Run) {
 		defer os.RemoveAll(dir)
 	}
 	in := c19In{Dir: dir, TokMax: r.Pick(4, 5), IncMax: r.Pick(3, 4), LineMax: r.Pick(3, 4), LineIncl: r.Pick(2, 3)}
+	if r.Degraded() {
+		in = c19In{Dir: dir, TokMax: 2, IncMax: 1, LineMax: 1, LineIncl: 1}
+	}
 	if v := os.Getenv("VERIF_C19_TOKMAX"); v != "" {
 		fmt.Sscan(v, &in.TokMax)
 	}
